@@ -600,20 +600,32 @@ func c10DeclaredMax(b []byte) uint64 {
 	return max
 }
 
-var (
-	c10UseMetrics bool
-	c10Sample     = []metrics.Sample{{Name: "/gc/heap/allocs:bytes"}}
-)
+var c10Sample = []metrics.Sample{{Name: "/gc/heap/allocs:bytes"}}
 
-func c10AllocNow() uint64 {
-	if c10UseMetrics {
-		metrics.Read(c10Sample)
-		return c10Sample[0].Value.Uint64()
+func c10MetricsNow() uint64 {
+	metrics.Read(c10Sample)
+
+	return c10Sample[0].Value.Uint64()
+}
+
+// c10Measure returns the heap bytes f allocates. The cheap runtime/metrics
+// counter (which may attribute earlier small allocations to the window)
+// screens; anything above 256 KiB is measured again, exactly, with
+// runtime.ReadMemStats (f is deterministic and is simply run once more).
+func c10Measure(f func()) uint64 {
+	before := c10MetricsNow()
+	f()
+	d := c10MetricsNow() - before
+	if d <= 256<<10 {
+		return d
 	}
 	var ms runtime.MemStats
 	runtime.ReadMemStats(&ms)
+	exact := ms.TotalAlloc
+	f()
+	runtime.ReadMemStats(&ms)
 
-	return ms.TotalAlloc
+	return ms.TotalAlloc - exact
 }
 
 // c10AllocCap bounds what one p2p decode of an input of n bytes may allocate:
@@ -787,10 +799,18 @@ func c10StreamProp(t c10TB, st *vstats.Collector, s c10Stream) {
 	}
 
 	// p2p decode with parsed types, allocation measured.
-	stream, holders := mkStream()
-	before := c10AllocNow()
-	parsed, err := stream.DecodeWithParsedTypesP2P(bytes.NewReader(s.data))
-	alloc := c10AllocNow() - before
+	var (
+		stream  *Stream
+		holders map[uint64]any
+		parsed  TypeMap
+		err     error
+	)
+	alloc := c10Measure(func() {
+		stream, holders = mkStream()
+		parsed, err = stream.DecodeWithParsedTypesP2P(
+			bytes.NewReader(s.data),
+		)
+	})
 	if alloc > c10AllocCap(len(s.data)) {
 		t.Fatalf("p2p decode of %d bytes allocated %d bytes (cap %d) "+
 			"input=%x", len(s.data), alloc, c10AllocCap(len(s.data)),
